@@ -197,3 +197,94 @@ func SetDiff(a, b []string) []string {
 	sort.Strings(out)
 	return out
 }
+
+// SwitchMap: the (single) switch over the enum in f, as a map from each case constant to the one
+// constant the clause assigns or returns.  A clause that produces no constant or more than one
+// maps to "".
+func (f *Fn) SwitchMap(typeRef string) (map[string]string, string) {
+	sws := f.EnumSwitches(typeRef)
+	if len(sws) != 1 {
+		return nil, fmt.Sprintf("%d switches over %s in %s, exactly 1 confirmed by reading", len(sws), typeRef, f.Name)
+	}
+	out := map[string]string{}
+	for name, cl := range sws[0].Clauses {
+		found := map[string]bool{}
+		for _, st := range cl.Body {
+			ast.Inspect(st, func(x ast.Node) bool {
+				var rhs []ast.Expr
+				switch s := x.(type) {
+				case *ast.AssignStmt:
+					rhs = s.Rhs
+				case *ast.ReturnStmt:
+					rhs = s.Results
+				}
+				for _, r := range rhs {
+					if c := constOf(f.Info, r); c != nil {
+						found[c.Name()] = true
+					}
+				}
+				return true
+			})
+		}
+		if len(found) == 1 {
+			out[name] = SortedKeys(found)[0]
+		} else {
+			out[name] = ""
+		}
+	}
+	return out, ""
+}
+
+// InverseSwitches: aRef translates enum aType to enum bType with a switch, bRef translates back;
+// both cover every constant of their input type (except the listed ones) and bRef∘aRef is the
+// identity on constant names.
+func (c *Ctx) InverseSwitches(rule, aRef, aType, bRef, bType string, except map[string]string) bool {
+	a, b := c.Fn(aRef), c.Fn(bRef)
+	what := fmt.Sprintf("the %s→%s table of %s and the %s→%s table of %s are inverse bijections", short(aType), short(bType), short(aRef), short(bType), short(aType), short(bRef))
+	am, why := a.SwitchMap(aType)
+	if am == nil {
+		c.Fail(rule, aRef, what, c.P.Pos(a.Body.Pos()), why)
+		return false
+	}
+	bm, why := b.SwitchMap(bType)
+	if bm == nil {
+		c.Fail(rule, bRef, what, c.P.Pos(b.Body.Pos()), why)
+		return false
+	}
+	var bad []string
+	for _, k := range c.P.EnumConsts(aType) {
+		if _, ex := except[k.Name()]; ex {
+			continue
+		}
+		v, ok := am[k.Name()]
+		switch {
+		case !ok:
+			bad = append(bad, short(aRef)+" has no case for "+k.Name())
+		case v == "":
+			bad = append(bad, short(aRef)+" maps "+k.Name()+" to no single constant")
+		case bm[v] != k.Name():
+			bad = append(bad, fmt.Sprintf("%s maps %s to %s, %s maps %s to %q", short(aRef), k.Name(), v, short(bRef), v, bm[v]))
+		}
+	}
+	for _, k := range c.P.EnumConsts(bType) {
+		if _, ex := except[k.Name()]; ex {
+			continue
+		}
+		v, ok := bm[k.Name()]
+		switch {
+		case !ok:
+			bad = append(bad, short(bRef)+" has no case for "+k.Name())
+		case v == "":
+			bad = append(bad, short(bRef)+" maps "+k.Name()+" to no single constant")
+		case am[v] != k.Name():
+			bad = append(bad, fmt.Sprintf("%s maps %s to %s, %s maps %s to %q", short(bRef), k.Name(), v, short(aRef), v, am[v]))
+		}
+	}
+	if len(bad) > 0 {
+		sort.Strings(bad)
+		c.Fail(rule, aRef, what, c.P.Pos(a.Body.Pos()), strings.Join(bad, "; "))
+		return false
+	}
+	c.Pass(rule, aRef, what, fmt.Sprintf("%d↔%d constants", len(am), len(bm)))
+	return true
+}
